@@ -141,6 +141,7 @@ Proof.
     bp H; [apply (proj1 eval_dest_np _ _ _ H)|]. destruct a as [[lf b2] ps]. discriminate.
   - bp H; [|destruct a0 as [b ps]; discriminate]. unfold exec_send_all in H.
     bp H; [apply (proj1 eval_source_np _ _ _ H)|]. destruct a0 as [f b1].
+    destruct (negb (src_plain s) && negb (String.eqb (fasset f) (eval_asset e a))); [discriminate|].
     bp H; [apply (proj1 eval_dest_np _ _ _ H)|]. destruct a0 as [[lf b2] ps]. discriminate.
   - bp H; [|discriminate]. destruct v; simpl in H; try discriminate.
     bp H; [apply (eval_mon_np _ _ H)|]. destruct a as [x y]. discriminate.
@@ -156,55 +157,6 @@ Proof.
   induction l as [|s tl IH]; intros ms; simpl; [discriminate|]. intros H. bp H; [apply (exec_stmt_np _ _ H)|apply (IH _ H)].
 Qed.
 End Safe.
-
-(* ---------- the resolved environment of a program without balance() variables has no nil amount ---------- *)
-Definition no_balance_vars (p : program) : Prop :=
-  forall d, In d (pvars p) -> match vorigin d with OBalance _ _ => False | _ => True end.
-
-Lemma lookup_app {V} (e1 e2 : list (string * V)) x :
-  lookup (e1 ++ e2) x = match lookup e1 x with Some v => Some v | None => lookup e2 x end.
-Proof. induction e1 as [|[y v] r IH]; simpl; [reflexivity|]. destruct (String.eqb y x); [reflexivity|apply IH]. Qed.
-
-Lemma env_ok_snoc e x v : env_ok e -> (forall a, v <> VMonetary a None) -> env_ok (e ++ [(x, v)]).
-Proof.
-  intros He Hv y a. rewrite lookup_app. destruct (lookup e y) eqn:E; [rewrite <- E; apply He|].
-  simpl. destruct (String.eqb x y); [|discriminate]. intros H. inversion H. apply (Hv a). assumption.
-Qed.
-
-Lemma resolve_vars_ok decls given s : forall e bv e' bv',
-  resolve_vars decls given s e bv = Ok (e', bv') ->
-  (forall d, In d decls -> match vorigin d with OBalance _ _ => False | _ => True end) ->
-  set_vars decls given = true -> env_ok e -> env_ok e' /\ bv' = bv.
-Proof.
-  induction decls as [|d tl IH]; intros e bv e' bv' H Hn Hs He; simpl in H.
-  - inversion H. subst. auto.
-  - simpl in Hs. pose proof (Hn d (or_introl eq_refl)) as Hd.
-    assert (forall d0, In d0 tl -> match vorigin d0 with OBalance _ _ => False | _ => True end) as Hn' by (intros; apply Hn; right; assumption).
-    destruct (vorigin d) as [|a k|a k]; [| |contradiction].
-    + destruct (lookup given (vname d)) as [v|]; [|discriminate].
-      apply andb_prop in Hs. destruct Hs as [Hs1 Hs2]. apply andb_prop in Hs1. destruct Hs1 as [_ Hv].
-      apply (IH _ _ _ _ H Hn' Hs2). apply env_ok_snoc; [assumption|]. intros a0 ->. simpl in Hv. discriminate.
-    + destruct (bget (st_meta s) (eval_acc e a, k)) as [v|]; [|discriminate].
-      destruct (ty_eqb (ty_of v) (vty d) && validate_value v) eqn:Ev; [|discriminate].
-      apply andb_prop in Ev. destruct Ev as [_ Hv].
-      apply (IH _ _ _ _ H Hn' Hs). apply env_ok_snoc; [assumption|]. intros a0 ->. simpl in Hv. discriminate.
-Qed.
-
-Theorem run_no_panic p given s : no_balance_vars p -> run p given s <> Panic.
-Proof.
-  intros Hn. unfold run. destruct (negb (check p)); [discriminate|].
-  destruct (set_vars (pvars p) given && no_extraneous (pvars p) given) eqn:Es; simpl; [|discriminate].
-  apply andb_prop in Es. destruct Es as [Es _].
-  destruct (resolve_vars (pvars p) given s [] []) as [[e0 bv]| |] eqn:Er; simpl; try discriminate.
-  - assert (env_ok []) as H0 by (intros x a; simpl; discriminate).
-    destruct (resolve_vars_ok _ _ _ _ _ _ _ Er Hn Es H0) as [He ->].
-    unfold resolve_balances. match goal with |- context[if ?c then _ else _] => destruct c end; [simpl; discriminate|]. simpl.
-    intros H. bp H; [apply (exec_stmts_np _ He _ _ H)|discriminate].
-  - clear - Er. exfalso. revert Er. generalize (@nil (string * value)) as e, (@nil (string * key)) as bv.
-    induction (pvars p) as [|d tl IH]; intros e bv; simpl; [discriminate|].
-    destruct (vorigin d); [destruct (lookup given (vname d)); [apply IH|discriminate]| |apply IH].
-    destruct (bget _ _); [|discriminate]. destruct (_ && _); [apply IH|discriminate].
-Qed.
 
 (* ---------- C23: the primitive every bounded source goes through ---------- *)
 Lemma key_eqb_refl k : key_eqb k k = true.
